@@ -323,7 +323,53 @@ func checkMacro(mc MacroCase, c *vcommon.Ctx) *vcommon.Failure {
 		return vcommon.Failf("reference/outcome", "reference returns %s, real gives %s\n%s", refint.Canon(rv), out(oA), srcA)
 	}
 	if mc.Macrolet {
+		// macroexpand sees LEXICAL macros too: inside the macrolet the call's
+		// expansion (one step and all steps) is what the reference computes
+		for _, fn := range []string{"macroexpand-1", "macroexpand"} {
+			prog := []gen.Val{macroletForm(mc.Defs, gen.Call(fn, quotedCall))}
+			src := gen.RenderProgram(prog)
+			inL, rvL, reL, abL := refRun(prog)
+			if abL != "" || inL.Unsupported != "" {
+				continue
+			}
+			rtL := vcommon.NewRuntime(rtCfg)
+			oL := rtL.Load(src)
+			if reL != nil {
+				if !oL.IsErr {
+					return vcommon.Failf("lexical-"+fn+"/outcome", "reference: %s of a macrolet macro signals %q, real returns %s\n%s", fn, reL.Cond, oL.Canon, src)
+				}
+			} else if oL.IsErr || oL.Canon != refint.Canon(rvL) {
+				return vcommon.Failf("lexical-"+fn+"/expansion", "%s inside the macrolet gives %s, the reference %s\n%s", fn, out(oL), refint.Canon(rvL), src)
+			}
+			c.Class("lexical-macroexpand-compared")
+		}
 		return nil
+	}
+	// a local FUNCTION or a local macro shadowing the global macro: macroexpand
+	// must follow the binding the call would reach
+	{
+		last := mc.Defs[len(mc.Defs)-1]
+		name := last.L[1]
+		shadowFn := gen.L(gen.S("flet"), gen.L(gen.L(name, gen.L(gen.S("&rest"), gen.S("zz")), gen.I(7))), gen.Call("macroexpand", quotedCall))
+		shadowMac := gen.L(gen.S("macrolet"), gen.L(gen.L(name, gen.L(gen.S("&rest"), gen.S("zz")), gen.I(9))), gen.Call("macroexpand", quotedCall))
+		for _, sh := range []gen.Val{shadowFn, shadowMac} {
+			prog := append(append([]gen.Val{}, mc.Defs...), sh)
+			src := gen.RenderProgram(prog)
+			inS, rvS, reS, abS := refRun(prog)
+			if abS != "" || inS.Unsupported != "" {
+				continue
+			}
+			rtS := vcommon.NewRuntime(rtCfg)
+			oS := rtS.Load(src)
+			if reS != nil {
+				if !oS.IsErr {
+					return vcommon.Failf("shadowed-macroexpand/outcome", "reference signals %q, real returns %s\n%s", reS.Cond, oS.Canon, src)
+				}
+			} else if oS.IsErr || oS.Canon != refint.Canon(rvS) {
+				return vcommon.Failf("shadowed-macroexpand/expansion", "macroexpand under a lexical binding of the operator gives %s, the reference %s\n%s", out(oS), refint.Canon(rvS), src)
+			}
+			c.Class("shadowed-macroexpand-compared")
+		}
 	}
 	// (b) macroexpand-1 iterated == macroexpand, and one step == the
 	// reference's template instantiation
